@@ -414,12 +414,14 @@ def run(rep):
     def raw_reads(e, acc):
         if not isinstance(e, tuple) or not e or not isinstance(e[0], str):
             return acc
+        if finite_view(e):
+            return acc                                       # the data with non-finite entries masked
         if pq.call_named(e, "getitem") and len(e[2]) == 2:
-            if pq.mentions(e[2][1], lambda x: pq.call_named(x, "isfinite")):
-                return acc                                   # selection by a mask that requires finiteness
             k_ = e[2][1]
             if pq.call_named(k_, "getitem") and pq.call_named(k_[2][0], "elem") and k_[2][1] == num(0):
                 return raw_reads(e[2][0], acc)               # indexed by the column label
+            if pq.mentions(k_, lambda x: pq.call_named(x, "isfinite")):
+                return acc                                   # selection by a mask that requires finiteness
         if pq.call_named(e, "attr:_data") or pq.call_named(e, "attr:data"):
             acc.append(e)
             return acc
